@@ -2,15 +2,15 @@ SPECIFICATION Spec
 CONSTANTS
   AlertLS <- MCAlertLS
   RuleSets <- MCRuleSets
-  UseRuleSets = {"D1"}
+  UseRuleSets = {"N1", "N1r", "N2"}
   ScacheGCEvery = 1
   ProvGCEvery = 1
   MaxTime = 2
   Pick <- PickAll
   KnownGaps = {"F2a", "F2b", "F2c"}
-  PutAlerts = {"S1", "S2", "B", "T"}
-  Queries = {"S1", "S2", "B", "T", "T2"}
-  MuteQueries = {"B", "T"}
+  PutAlerts = {"S1", "B", "T"}
+  Queries = {"S1", "B", "T", "T2"}
+  MuteQueries = {}
   StartModes = {"same"}
   EndOffs = {1, 3}
   Timeouts = {TRUE}
